@@ -97,6 +97,7 @@ def run(R, tier, seed, driver_ok):
             if name == 'RCA_Supervised':
                 params['chunk_size'] = int(rng.choice([2, 3]))
                 params['n_chunks'] = d + 2
+                params['n_components'] = [None, max(1, d - 1), 1][int(rng.randint(3))]     # the reduced branch reads more of X
             params = zoo.fix_params(name, params, X, yl)
             num_classes = len(np.unique(yl))
             case = {'est': name, 'params': {k: (v if not isinstance(v, np.ndarray) else 'array') for k, v in params.items()}, 'X': X, 'y': yl, 'seed': sd}
